@@ -9,14 +9,14 @@ CAT = json.load(open(os.path.join(ROOT, "mutations.json")))
 def run_one(m):
     d = tempfile.mkdtemp(prefix="vxmut_", dir="/tmp")
     try:
-        shutil.copytree("/repo/src", os.path.join(d, "src"))
+        shutil.copytree(os.environ.get("VERIF_MUT_SRC", "/repo/src"), os.path.join(d, "src"))
         p = os.path.join(d, m["file"])
         s = open(p).read()
         if s.count(m["old"]) < 1:
             return (m, "ANCHOR-LOST", "")
         s = s.replace(m["old"], m["new"], 1)
         open(p, "w").write(s)
-        env = dict(os.environ, VERIF_REPO=d, VERIF_BUILD=os.path.join(d, "build"), VERIF_REPLAYS=os.path.join(d, "replays"), VERIF_EVIDENCE_DIR=os.path.join(d, "evidence"))
+        env = dict(os.environ, VERIF_NO_MUTATION="1", VERIF_REPO=d, VERIF_BUILD=os.path.join(d, "build"), VERIF_REPLAYS=os.path.join(d, "replays"), VERIF_EVIDENCE_DIR=os.path.join(d, "evidence"))
         r = subprocess.run([os.path.join(ROOT, "check"), m["property"], "--tier", m.get("tier", "quick")], env=env, stdout=subprocess.PIPE, stderr=subprocess.PIPE, text=True)
         viol = [l for l in r.stdout.split("\n") if l.startswith("VIOLATION")]
         if r.returncode == 1 and viol:
